@@ -1,0 +1,5 @@
+//go:build !verif
+
+package resource
+
+func verifAt(string, any, ...any) {}
